@@ -401,12 +401,23 @@ def run_narrow_path(params, known):
     s40 = ('send', hexn(40, 0x20))
     loads = {'termA': ([term], []), 'termB': ([], [term]), 'termA|termB': ([term], [term]), 'A5+termA|termB': ([s5, term], [term]),
              'A40+termA': ([s40, term], []), 'A40|termB': ([s40], [term]), 'A5+termA|B40': ([s5, term], [s40])}
-    for (lname, pipe, chunk, policy, when) in itertools.product(sorted(loads), (1, 2, 3, 7, 16), (9, 10240), ('rr-A', 'rr-B', 'burst-A', 'burst-B'),
-                                                                ('at-once', 'later')):
+    combos = [(l, p, c, pol, wh, 'fast') for (l, p, c, pol, wh) in itertools.product(sorted(loads), (1, 2, 3, 7, 16), (9, 10240),
+                                                                                      ('rr-A', 'rr-B', 'burst-A', 'burst-B'), ('at-once', 'later'))]
+    # a slow path as well: one second passes after every fourth callback, both sides run keepalive (5 s) and idle (30 s)
+    # timers; a 300-octet segment takes longer to cross than keepalive plus idle time, its receiver asks for termination
+    # meanwhile and has nothing to say but KEEPALIVE - the transfer still completes
+    s300 = ('send', hexn(300, 0x30))
+    loads.update({'A300|termB': ([s300], [term]), 'A5+termA|B300': ([s5, term], [s300])})
+    combos += [(l, p, 10240, pol, wh, 'slow') for (l, p, pol, wh) in itertools.product(('A300|termB', 'A5+termA|B300'), (2, 3),
+                                                                                      ('rr-A', 'rr-B', 'burst-A', 'burst-B'), ('at-once', 'later'))]
+    for (lname, pipe, chunk, policy, when, link) in combos:
         count += 1
-        case = dict(load=lname, pipe=pipe, read_chunk=chunk, schedule=policy, user_calls=when)
+        case = dict(load=lname, pipe=pipe, read_chunk=chunk, schedule=policy, user_calls=when, link=link)
         (sa, sb) = loads[lname]
-        w = TcpclWorld(dict(scripts={'A': list(sa), 'B': list(sb)}, pipe=pipe, chunk=chunk))
+        prm = dict(scripts={'A': list(sa), 'B': list(sb)}, pipe=pipe, chunk=chunk)
+        if link == 'slow':
+            prm.update(keepalive={'A': 5, 'B': 5}, idle={'A': 30, 'B': 30}, seg_mru={'A': 400, 'B': 400}, tx_init={'A': 400, 'B': 400})
+        w = TcpclWorld(prm)
         wire = WireMonitor(prop)
         dlv = DeliveryMonitor(prop, expect_all=False)
         w.monitors = [wire, dlv, TerminationMonitor(prop, delivery=dlv, wire=wire), EscapeMonitor(prop)]
@@ -436,15 +447,22 @@ def run_narrow_path(params, known):
                             burst = 0
                         break
             if pick is None:
+                if link == 'slow' and w.next_deadline() is not None and not all(w.conns[0].closed):
+                    w.clock.now_us = max(w.clock.now_us, w.next_deadline())
+                    continue
                 break
+            if pick[0] == 'tick':
+                continue
             (vs, _e) = w.apply(pick)
             found.extend(vs)
+            if link == 'slow' and steps % 4 == 0:
+                w.clock.now_us += 1000000
         else:
             if not found:
                 found.append(Violation(prop, 'termination', 'run-does-not-end', dict(), 'still busy after %d steps' % steps))
         if not found:
             found.extend(w.check_final())
-        keys.add('%s/%d/%d/%s/%s' % (lname, pipe, chunk, policy, when))
+        keys.add('%s/%d/%d/%s/%s/%s' % (lname, pipe, chunk, policy, when, link))
         for v in found:
             if v.kind in kinds:
                 continue
